@@ -313,9 +313,40 @@ def settings_values_table(ctx, rule="C02.R3"):
     return out
 
 
+def _range_validators(ctx, chk, rule):
+    """a validator named _check_between_<A>_and_<B> (its message says "between A and B") accepts exactly the closed interval:
+    its validity expression is evaluated at A, B, the midpoint and just outside"""
+    import re as _re
+    from .c15 import _NoValue, _const_eval
+    n = 0
+    for f in ctx.ix.module("dateparser.conf").functions.values():
+        m = _re.fullmatch(r"_check_between_(\d+)_and_(\d+)", f.name)
+        if not m:
+            continue
+        a, b = float(m.group(1)), float(m.group(2))
+        p = f.params()[-1]
+        exprs = [x.value for x in iter_own_nodes(f.node) if isinstance(x, ast.Assign) and isinstance(x.value, (ast.Compare, ast.BoolOp))]
+        tests = [x.test for x in iter_own_nodes(f.node) if isinstance(x, ast.If) and any(isinstance(y, ast.Raise) for y in ast.walk(x))]
+        if len(exprs) != 1 or len(tests) != 1:
+            raise AnalysisError(rule, "%s: validity expression not found" % f.name)
+        n += 1
+        try:
+            inside = [_const_eval(exprs[0], {p: v}) for v in (a, (a + b) / 2, b)]
+            outside = [_const_eval(exprs[0], {p: v}) for v in (a - 0.5, b + 0.5)]
+        except _NoValue as e:
+            raise AnalysisError(rule, "%s: validity expression is not closed over the value (%s)" % (f.name, e))
+        chk.ob(rule, "%s accepts %g, %g and %g and rejects %g and %g" % (f.name, a, (a + b) / 2, b, a - 0.5, b + 0.5),
+               all(inside) and not any(outside),
+               "`%s` evaluates to %s inside and %s outside: an end point of the documented range is rejected (or a value outside it accepted)"
+               % (" ".join(ast.unparse(exprs[0]).split()), inside, outside),
+               key={"function": f.key, "construct": "closed range"}, file=f.file, function=f.qual, line=f.node.lineno)
+    chk.floor(rule + ".ranges", n, 1, "range validators")
+
+
 def r3(ctx, chk):
     rule = "C02.R3"
     ix = ctx.ix
+    _range_validators(ctx, chk, rule)
     # parsers: dispatch dict keys == validated names >= defaults
     init = ix.func("dateparser.date:_DateLocaleParser.__init__")
     disp = None
